@@ -299,3 +299,91 @@ Proof.
   - intro H. apply app_eq_nil in H. destruct H as [H1 H2]. split; [apply call_file_tags_iff; exact H1 | apply IH; exact H2].
   - intros [H1 H2]. rewrite (proj2 (call_file_tags_iff loc arch w c got) H1), (proj2 (IH w) H2). reflexivity.
 Qed.
+
+(* ================= remote indexes served with an ETag ================= *)
+From Apko Require Import Model.IndexCacheEtag.
+Section EtagProofs.
+  Variable loc : nat -> string.
+  Variable arch : string.
+  Variable K : Type.
+  Variable K_eqb : K -> K -> bool.
+  Variable ctx : repo_call -> nat -> K.
+  Hypothesis K_eqb_sound : forall a b, K_eqb a b = true -> a = b.
+  Hypothesis ctx_separates : forall c c' r, ctx c r = ctx c' r ->
+    forall sg, auth_sig loc arch c r sg = auth_sig loc arch c' r sg.
+
+  Notation A := (auth_sig loc arch).
+  Notation entry_ok := (entry_ok loc arch K ctx).
+  Definition estore_ok (w : fworld) (s : list (eentry K)) : Prop := forall e, In e s -> entry_ok w e.
+
+  Lemma elookup_in s r k e res : elookup K K_eqb s r k e = Some res -> In (r, k, e, res) s.
+  Proof.
+    induction s as [|[[[r' k'] e'] res'] s IH]; simpl; [discriminate|].
+    destruct (Nat.eqb r r' && K_eqb k k' && N.eqb e e') eqn:E.
+    - intro H. inversion H; subst. apply andb_true_iff in E. destruct E as [E E3]. apply andb_true_iff in E. destruct E as [E1 E2].
+      apply Nat.eqb_eq in E1. apply K_eqb_sound in E2. apply N.eqb_eq in E3. subst. left. reflexivity.
+    - intro H. right. apply IH. exact H.
+  Qed.
+
+  Lemma estore_ok_rewrite w s r v : estore_ok w s -> estore_ok (put_version w r v) s.
+  Proof.
+    intros H [[[r' k] m] res] He. destruct (H _ He) as (v' & c0 & Hin & R). exists v', c0. split; [|exact R].
+    unfold put_version. destruct (Nat.eqb r' r); [right; exact Hin | exact Hin].
+  Qed.
+
+  Lemma eget_spec w s u c r : estore_ok w s ->
+    estore_ok w (fst (snd (eget loc arch K K_eqb ctx w (s, u) c r))) /\
+    forall id, fst (eget loc arch K K_eqb ctx w (s, u) c r) = Some id ->
+      (exists v, In v (w r) /\ fv_id v = id /\ A c r (fv_signer v) = true) /\
+      (forall cur older, w r = cur :: older -> visible_head (w r) = true -> A c r (fv_signer cur) = true).
+  Proof.
+    intro Hs. unfold eget. destruct (w r) as [|v older] eqn:W; [split; [exact Hs | intros id H; discriminate]|].
+    destruct (elookup K K_eqb s r (ctx c r) (fv_mtime v)) as [res|] eqn:L.
+    - cbn [fst snd]. split; [exact Hs|]. intros id Hres. subst res.
+      apply elookup_in in L. destruct (Hs _ L) as (v' & c0 & Hin & Hm & Hk & Hr). rewrite W in Hin.
+      assert (A c r (fv_signer v') = A c0 r (fv_signer v')) as Eq by (apply ctx_separates; exact Hk).
+      destruct (A c0 r (fv_signer v')) eqn:E; [|discriminate]. destruct (fv_parses v'); [|discriminate]. inversion Hr; subst id.
+      split; [exists v'; split; [exact Hin | split; [reflexivity | rewrite Eq; reflexivity]]|].
+      intros cur older0 Eqw Vis. inversion Eqw; subst cur older0.
+      destruct Hin as [<-|Hin]; [rewrite Eq; reflexivity|exfalso].
+      simpl in Vis. rewrite forallb_forall in Vis. specialize (Vis v' Hin). apply N.ltb_lt in Vis. lia.
+    - cbn [fst snd]. split.
+      + intros e [<-|He].
+        * exists v, c. rewrite W. split; [left; reflexivity|]. repeat split.
+        * apply Hs. destruct (prev_etag K K_eqb u r (ctx c r)); [apply filter_In in He; tauto | exact He].
+      + intros id H. destruct (A c r (fv_signer v)) eqn:E; [|discriminate]. destruct (fv_parses v); [|discriminate]. inversion H; subst.
+        split; [exists v; split; [left; reflexivity | split; [reflexivity | exact E]]|].
+        intros cur older0 Eq _. inversion Eq; subst. exact E.
+  Qed.
+
+  Lemma eget_all_spec w c : forall rs s u, estore_ok w s ->
+    estore_ok w (fst (snd (eget_all loc arch K K_eqb ctx w (s, u) c rs))) /\
+    forall r id, In (r, Some id) (fst (eget_all loc arch K K_eqb ctx w (s, u) c rs)) ->
+      (exists v, In v (w r) /\ fv_id v = id /\ A c r (fv_signer v) = true) /\
+      (forall cur older, w r = cur :: older -> visible_head (w r) = true -> A c r (fv_signer cur) = true).
+  Proof.
+    induction rs as [|r rs IH]; intros s u Hs; simpl; [split; [exact Hs | intros r id []]|].
+    destruct (eget_spec w s u c r Hs) as [H1 H2].
+    destruct (eget loc arch K K_eqb ctx w (s, u) c r) as [res [s1 u1]]. cbn [fst snd] in H1, H2.
+    destruct (IH s1 u1 H1) as [H3 H4].
+    destruct (eget_all loc arch K K_eqb ctx w (s1, u1) c rs) as [l [s2 u2]]. cbn [fst snd] in *.
+    split; [exact H3|]. intros r' id [E|Hin]; [inversion E; subst; apply H2; reflexivity | apply H4; exact Hin].
+  Qed.
+
+  Theorem etag_model_holds : forall evs w s u, estore_ok w s ->
+    FilesHold loc arch w (answered evs (erun loc arch K K_eqb ctx w (s, u) evs)).
+  Proof.
+    induction evs as [|[r v|c got] evs IH]; intros w s u Hs; [exact I| |].
+    - simpl. apply IH. apply estore_ok_rewrite. exact Hs.
+    - cbn [erun]. destruct (eget_all_spec w c (rc_repos c) s u Hs) as [H1 H2].
+      destruct (eget_all loc arch K K_eqb ctx w (s, u) c (rc_repos c)) as [l [s' u']] eqn:G. cbn [fst snd] in H1, H2.
+      cbn [answered FilesHold]. split; [|apply IH; exact H1].
+      intros r id Hin. destruct (forallb _ l); [|destruct Hin]. apply H2. apply (got_of_in l). exact Hin.
+  Qed.
+End EtagProofs.
+
+Theorem etag_fixed_holds loc arch evs w :
+  FilesHold loc arch w (answered evs (erun loc arch vctx vctx_eqb (ctx_fixed loc arch) w ([], []) evs)).
+Proof.
+  apply etag_model_holds; [apply vctx_eqb_sound' | intros; apply ctx_fixed_separates_sig; assumption | intros e []].
+Qed.
